@@ -84,6 +84,16 @@ def parsePairs (s : String) : Option (List (Int × Int)) :=
       | [a, b] => do pure ((← a.toInt?), (← b.toInt?))
       | _ => none
 
+/-- all orders in which the runtime may iterate over the entries of the Go map given to
+`NewTreeMapWithMap` (used only when two of its keys are equal under the comparator, where the order
+decides which key and which value survive) -/
+def insertAll {α : Type} (x : α) : List α → List (List α)
+  | [] => [[x]]
+  | y :: ys => (x :: y :: ys) :: (insertAll x ys).map (y :: ·)
+def perms {α : Type} : List α → List (List α)
+  | [] => [[]]
+  | x :: xs => (perms xs).flatMap (insertAll x)
+
 /-! states -/
 inductive Box where
   | rb (t : RBTree Int Int)            -- rbtree, pubtree, treemap, treemapof
@@ -381,7 +391,16 @@ def checkerFor (cfg : Cfg) : Checker where
           | none => ret none kind (some s!"bad-op {op}")
           | some pairs =>
             -- the abstract map holding the given entries (keys of the Go map are distinct)
-            let s : List (Int × Int) := pairs.foldl (fun acc p => (SMap.mstep cmp acc (.put p.1 p.2)).1) []
+            let putAll (ps : List (Int × Int)) : List (Int × Int) :=
+              ps.foldl (fun acc p => (SMap.mstep cmp acc (.put p.1 p.2)).1) []
+            let s0 := putAll pairs
+            -- keys equal under the comparator: `putAll` runs in Go's map iteration order, which decides the
+            -- surviving key (first put) and value (last put) of the class. Oracle = that order, read off the
+            -- observed contents and constrained to be the result of SOME order of the given entries.
+            let s : List (Int × Int) :=
+              if s0.length == pairs.length || pairs.length > 6 then s0 else
+                ((perms pairs).map putAll |>.find? fun c =>
+                  field obs "keys" == some (intsR (c.map (·.1))) && field obs "vals" == some (intsR (c.map (·.2)))).getD s0
             let n := s.length
             let pred : Pred := ⟨"ok", n, intsR (s.map (·.1)), intsR (s.map (·.2)), none, none, 0⟩
             -- adopt the observed shape (the insertion order is the runtime's), after validating it
